@@ -3,11 +3,11 @@ import FitModel.FitFormat
 import FitModel.Generated.WireConsts
 import Driver.Util
 /-! Driver handlers for the wire-level encoder/decoder families (syntax: see harness/wire.go). -/
--- @family encw Drv.hEncW'
--- @family decw Drv.hDecW
--- @family rtw Drv.hRtW
-namespace Drv
-open Fit.Wire
+-- @family encw Drv.W.hEncW'
+-- @family decw Drv.W.hDecW
+-- @family rtw Drv.W.hRtW
+namespace Drv.W
+open Drv Fit.Wire
 
 def parseNat? (s : String) : Option Nat := s.toNat?
 
@@ -291,4 +291,4 @@ def hRtW : Handler := fun r =>
   | .prop => propRtW r.args r.impl
   | .kf => kfRtW r.args
 
-end Drv
+end Drv.W
